@@ -394,6 +394,39 @@ let () = register "concurrent" (fun args ->
   let impl = if L.length args < 2 then "ok" else L.nth args 1 in
   ("ok", if impl = "ok" then "ok" else "bad:concurrent results differ from sequential: " ^ impl))
 
+(* ---- unit tie: block writer at the restart cap ---- *)
+let () = register "bwcap" (fun args ->
+  let oracle =
+    if L.length args < 2 then "-" else
+    match S.split_on_char ' ' (L.nth args 1) with
+    | [_; r; _; st] ->
+      let r = int_of_string r and st = int_of_string st in
+      if r > 65535 || st <> r then "bad:restart table of " ^ string_of_int r ^ " entries stored with count " ^ string_of_int st ^ " (a reader takes the rest for records)"
+      else "ok"
+    | _ -> "-" in
+  (fun (m, _) -> (m, oracle)) @@
+  match S.split_on_char ',' (L.nth args 0) with
+  | [n; iv] ->
+    let n = int_of_string n and iv = int_of_string iv in
+    let four = nat_of_int 4 in
+    let w = { Block.bw_typ = RecCodec.typ_ref; bw_hdr = nat_of_int 0; bw_size = nat_of_int (4 + 16 + 64 + 3 * (n + 2) + 2);
+              bw_interval = nat_of_int iv; bw_hash = nat_of_int 20; bw_body = L.init 16 (fun _ -> N0);
+              bw_restarts = L.init n (fun _ -> four); bw_last = []; bw_entries = nat_of_int n } in
+    let r = RecCodec.RecRef { Records.r_name = [n_of_int 107]; r_index = N0; r_val = Records.RDel } in
+    (match Block.bw_add w r with
+     | Result.Ok (Some w') ->
+       let data = Block.bw_finish (fun x -> x) [] w' in
+       let len = L.length data in
+       let b1 = int_of_n (L.nth data (len - 2)) and b2 = int_of_n (L.nth data (len - 1)) in
+       (Printf.sprintf "true %d %d %d" (L.length w'.Block.bw_restarts) len (b1 * 256 + b2), "-")
+     | Result.Ok None ->
+       let data = Block.bw_finish (fun x -> x) [] w in
+       let len = L.length data in
+       let b1 = int_of_n (L.nth data (len - 2)) and b2 = int_of_n (L.nth data (len - 1)) in
+       (Printf.sprintf "false %d %d %d" (L.length w.Block.bw_restarts) len (b1 * 256 + b2), "-")
+     | _ -> ("panic", "-"))
+  | _ -> ("badargs", "-"))
+
 (* ---- hostile bytes: C18 ---- *)
 let () = register "hostile" (fun args ->
   let f = S.split_on_char '|' (L.nth args 0) in
